@@ -24,6 +24,9 @@ type Harness struct {
 	Name     string
 	Run      func(r *Run)
 	NoBubble bool
+	// RateLimit caps the runs per second of one worker (0 = unlimited). Used by the harnesses on real loopback
+	// sockets: every run leaves connections in TIME_WAIT for 60 s and the ephemeral port range is finite.
+	RateLimit float64
 	// HashInsensitive: replay is judged by the violation key only. For harnesses whose code under test iterates Go
 	// maps (graph construction): the oracle is order-independent but the event log is not byte-stable.
 	HashInsensitive bool
@@ -409,6 +412,11 @@ func mainSearch(t *testing.T, h Harness, out string) {
 		}
 		if time.Since(start) > budget && i > 0 {
 			break
+		}
+		if h.RateLimit > 0 {
+			if ahead := time.Duration(float64(i)/h.RateLimit*float64(time.Second)) - time.Since(start); ahead > 0 {
+				time.Sleep(ahead)
+			}
 		}
 		ds := Mix(seed, worker, i)
 		if exact != 0 {
